@@ -715,6 +715,10 @@ def value_violation(ev, ops, arg, res):
         S = bounds[0] + bounds[1]
     elif name == 'norm':
         S = bounds[0] ** 2 * nmax if arg else bounds[0] * nmax ** 0.5
+        if not arg and any(c.requires_grad or c.grad_fn is not None for c in ops[0].cores):
+            # the differentiable branch forms the Gram chain and takes a square root: for a representation with
+            # cancellation (x - x) the attainable accuracy of the norm is sqrt(u) * |cores|, not u * |cores|
+            S = S * (1e-3 / u) ** 0.5
     elif name in ('sum', 'mprod'):
         S = bounds[0] * nmax
     else:
